@@ -2,11 +2,11 @@
 from . import vise, core
 PID = 'C04'
 MC = ['C04_PositionWellFormed']
-TR = ['C04_Nav', 'C04_Code']
+TR = ['C04_Nav', 'C04_Code', 'C04_ReqNav']
 
 
 def run(tier):
-    f = vise.Family(PID, tier, MC, TR, ['nav', 'reenter', 'ends'], modes=('L', 'P'))
+    f = vise.Family(PID, tier, MC, TR, ['nav', 'reenter', 'ends', 'pages', 'first'], modes=('L', 'P'))
     f.out.assumptions = ['instruction-level hook in vm.Run (build tag verif) records complete pre/post state per loop iteration',
                          'the decision whether a conditional move is taken is charged to C03/C06: C04 accepts the table applied or not applied']
     t = f.thorough
